@@ -8,6 +8,8 @@ import Vivid.Model.Messages
     dec x<hex>                     -> ok <name> <tokens> rest=<n> | unknown <name> | err
     encenv <name> <tokens> | <T|F> x<saddr> x<spath> x<raddr> x<rpath>
     decenv x<hex>
+    rfl <kind> x<hex>                          -> ok <tokens> rest=<n> | err     (reflective reader)
+    rflinto <kind> <prefill tokens> | x<hex>   -> ok <tokens> | err <tokens the destination holds afterwards>
 -/
 namespace Vivid.Engine.CodecEngine
 open Vivid.Codec Vivid.Engine
@@ -142,6 +144,25 @@ def step (c : CS) (line : String) : CS × String :=
           | some t => (c, showTokens (["ok", k] ++ showV t v ++ [s!"rest={rest.length}"]))
           | none => (c, "err")
         | none => (c, "err")
+  | ["rfl", kind, hx] =>
+    match reflTy kind, parseBytes hx with
+    | some t, some bs =>
+      match dec t bs with
+      | .err => (c, "err")
+      | .ok (v, rest) => (c, showTokens (["ok"] ++ showV t v ++ [s!"rest={rest.length}"]))
+    | _, _ => (c, "bad-op")
+  | "rflinto" :: kind :: ts =>
+    -- decode into a destination that holds an earlier value: on failure the destination keeps it
+    let (pt, ht) := splitBar ts
+    match reflTy kind, ht with
+    | some t, [hx] =>
+      match parseV t pt, parseBytes hx with
+      | some (pre, []), some bs =>
+        match dec t bs with
+        | .err => (c, showTokens (["err"] ++ showV t pre))
+        | .ok (v, _) => (c, showTokens (["ok"] ++ showV t v))
+      | _, _ => (c, "bad-op")
+    | _, _ => (c, "bad-op")
   | ["write", kind] =>
     -- `Writer.Write` on a Go value: supported kinds encode, everything else must be an error
     if supportedKinds.contains kind then (c, "ok")
